@@ -28,12 +28,20 @@ def gen_store(ctx: Ctx) -> tuple[list[dict[str, Any]], list[tuple[str, str]]]:
     r = ctx.rng
     names = r.sample(["wf", "wf2", "Wf", "a b", "z", "é1", "wf_10", "wf_9"], k=r.choice([1, 2, 3, 4]))
     share_ids = r.random() < 0.35  # the same trace id under several workflow names (distinct traces)
+    # names that are prefixes of each other with trace ids that make up the difference: the pair
+    # (name, id) must be matched as a pair, not through any joined key
+    glue = r.random() < 0.25
+    if glue:
+        names = r.sample(["wf", "wf1", "wf12", "wf_", "wf_1"], k=r.choice([2, 3, 4]))
+        ctx.tick("store_glue_names")
     events: list[dict[str, Any]] = []
     traces: list[tuple[str, str]] = []
     k = 0
     for name in names:
         for j in range(r.choice([1, 2, 3, 4])):
             jid = f"t{j}" if share_ids else f"{name}-t{j}"
+            if glue:
+                jid = ["2", "12", "1", "22", "_1", "1_1"][(j + len(name)) % 6]
             traces.append((name, jid))
             n = r.choice([1, 2, 3, 5])
             ids = [f"s{k + i}" for i in range(n)]
